@@ -51,6 +51,7 @@ Qed.
 
 Section IdleSched.
 Variable mx : Z.
+Variable kp : Z.
 
 Definition dsched_okI (acc : list ev) (c0 dl : Z) (res : pw * sdata * pass_res * list ev) : Prop :=
   let '(x', d', r, acc') := res in
@@ -70,29 +71,30 @@ Lemma TK_fold evs t : Forall tinert evs -> TK (po_tasks t) -> TK (po_tasks (fold
 Proof. intros H HS. destruct (fold_tinert evs t H) as [-> _]. exact HS. Qed.
 
 Lemma dsched_I : forall fuel tnt x d deadline results acc t,
-  J mx tnt x d None t -> quiet_off t -> G mx x None -> pw_ts x = [] -> TS (po_tasks t) -> TK (po_tasks t) ->
+  J mx kp tnt x d None t -> quiet_off t -> G mx x None -> pw_ts x = [] -> TS (po_tasks t) -> TK (po_tasks t) -> stopc t ->
   0 < sat_sub deadline (pw_clock x) ->
   dsched_okI acc (pw_clock x) deadline (dsched fuel x d deadline results acc).
 Proof.
-  induction fuel as [|f IH]; intros tnt x d deadline results acc t HJ Hq HG Hts HS HK Hlft.
+  induction fuel as [|f IH]; intros tnt x d deadline results acc t HJ Hq HG Hts HS HK Hsc Hlft.
   - cbn [dsched do_schedule dsched_okI]. exists []. rewrite app_nil_r. auto.
   - rewrite dsched_S. cbv zeta. assert (sat_sub deadline (pw_clock x) =? 0 = false) as -> by lia.
-    destruct (cready_J mx tnt x d acc t HJ Hq HG Hts) as (x1 & d1 & e1 & Ecr & HJ1 & HG1 & Hts1 & Ecl1 & F1 & F2 & P1).
+    destruct (cready_J mx kp tnt x d acc t HJ Hq HG Hts) as (x1 & d1 & e1 & Ecr & HJ1 & HG1 & Hts1 & Ecl1 & F1 & F2 & P1).
     destruct (cready_inert _ _ _ _ _ _ Ecr) as (e1' & Ee1 & Hin1). apply app_inv_head in Ee1. subst e1'.
     rewrite Ecr. apply (dsched_okI_chain acc e1 _ _ _ Hin1). set (t1 := fold_left pev e1 t) in *.
     assert (quiet_off t1) as Hq1 by (apply quiet_off_fold, Hq).
     assert (TS (po_tasks t1)) as HS1 by (apply TS_fold; assumption).
     assert (TK (po_tasks t1)) as HK1 by (apply TK_fold; assumption).
-    unfold k_pop. pose proof (jq_c _ _ (j_q _ _ _ _ _ _ _ HJ1)) as HQc.
+    assert (stopc t1) as Hsc1 by (apply stopc_fold, Hsc).
+    unfold k_pop. pose proof (jq_c _ _ (j_q _ _ _ _ _ _ _ _ HJ1)) as HQc.
     destruct (lpop (pw_cq x1) 0 0) as [q r] eqn:Epop.
     destruct (Q1_lpop_cases _ _ _ _ HQc Epop) as [HQ' [(z & -> & Hcnt)|(-> & Hnil & Hnil')]].
-    + destruct (J_open_cq mx tnt x1 d1 t1 q z HJ1 HQ' Hcnt) as (w & k & -> & Hk & Hl & Hp & Hres & HJ2).
+    + destruct (J_open_cq mx kp tnt x1 d1 t1 q z HJ1 HQ' Hcnt) as (w & k & -> & Hk & Hl & Hp & Hres & HJ2).
       rewrite Nat2Z.id. set (x2 := set_cq x1 q) in *.
       assert (get_worker x2 w = Some k) as Hk2 by exact Hk.
       assert (pw_clock x2 = pw_clock x) as Ecl2 by exact Ecl1.
       unfold k_cancelled. destruct (Sched.mem_nat w (pw_cancel_cos x2)) eqn:Ecc.
       * apply mem_nat_In in Ecc.
-        destruct (J_drop mx tnt x2 d1 w t1 k HJ2 Hq1 Hk2 Hl Ecc) as (x3 & Ekc & HJ3 & HG3 & Hts3 & Ecl3 & Hr3 & Hc3).
+        destruct (J_drop mx kp tnt x2 d1 w t1 k HJ2 Hq1 Hk2 Hl Ecc) as (x3 & Ekc & HJ3 & HG3 & Hts3 & Ecl3 & Hr3 & Hc3).
         rewrite Ekc. set (e := EL 0 w (CbChanged Cancelled) (k_st k)) in *.
         assert (Forall tinert [e]) as Hine by (constructor; [apply tinert_EL | constructor]).
         apply (dsched_okI_chain (acc ++ e1) [e] _ _ _ Hine).
@@ -104,50 +106,62 @@ Proof.
         -- rewrite Hts3. exact Hts1.
         -- apply TS_fold; assumption.
         -- apply TK_fold; assumption.
+        -- apply stopc_fold, Hsc1.
         -- rewrite Ecl3'. exact Hlft.
       * apply mem_nat_false in Ecc.
         assert (parked_ok x2 w) as Hpk.
         { destruct Hp as (Hd & Ht & m & Hm & Hb). exists k, m. repeat (split; [assumption|]). exact Hb. }
         assert (G mx x2 (Some w)) as HG2 by (apply G_None_any, G_set_cq, HG1).
-        destruct (k_resume_J mx tnt x2 d1 w t1 HJ2 Hq1 HG2 Hpk Ecc Hts1)
-          as (x3 & r & e & Ekr & (HJ3 & HG3 & Hts3 & Ecc3 & (k' & Hk' & -> & Hpl) & Hr3 & Hc3)).
-        destruct (k_resume_I mx tnt x2 d1 w t1 HJ2 Hq1 HG2 Hpk Ecc Hts1 HS1 HK1) as (x3' & r' & e' & Ekr' & Hine & Ecl3).
+        destruct (k_resume_J mx kp tnt x2 d1 w t1 HJ2 Hq1 HG2 Hpk Ecc Hts1)
+          as (x3 & r & e & Ekr & Hres3).
+        destruct (k_resume_I mx kp tnt x2 d1 w t1 HJ2 Hq1 HG2 Hpk Ecc Hts1 HS1 HK1 Hsc1) as (x3' & r' & e' & Ekr' & Hine & Ecl3).
         rewrite Ekr in Ekr'. injection Ekr' as <- _ <-.
         rewrite Ekr. apply (dsched_okI_chain (acc ++ e1) e _ _ _ Hine).
+        destruct Hres3 as [(HJ3 & HG3 & Hts3 & Ecc3 & (k' & Hk' & -> & Hpl) & Hr3 & Hc3)|(-> & _)].
+        2:{ cbn [dsched_okI]. exists []. rewrite app_nil_r. split; [reflexivity|]. split; [constructor|]. split; [congruence | exact I]. }
         assert (quiet_off (fold_left pev e t1)) as Hq3 by (apply quiet_off_fold, Hq1).
         assert (TS (po_tasks (fold_left pev e t1))) as HS3 by (apply TS_fold; assumption).
         assert (TK (po_tasks (fold_left pev e t1))) as HK3 by (apply TK_fold; assumption).
+        assert (stopc (fold_left pev e t1)) as Hsc3 by (apply stopc_fold, Hsc1).
         assert (pw_clock x3 = pw_clock x) as Ecl3' by congruence.
         assert (0 < sat_sub deadline (pw_clock x3)) as Hlft3 by (rewrite Ecl3'; exact Hlft).
         rewrite <- Ecl3'.
-        destruct Hpl as [(Hl' & v & Est)|(Hl' & Hd' & Ht' & i & rest & Htask & Hc)].
-        -- rewrite Est in *. eapply IH; [|exact Hq3 | exact HG3 | exact Hts3 | exact HS3 | exact HK3 | exact Hlft3].
-           eapply (J_close_dead mx tnt x3 d1 d1 w _ _ HJ3 Hk' Hl'); reflexivity.
+        destruct Hpl as [(Hl' & v & Est)|[(Hl' & Hd' & Ht' & i & rest & Htask & Hc)|(Hl' & Hd' & Ht' & Htask & Est)]].
+        3:{ rewrite Est in *.
+            assert (parked_facts k') as Hp'.
+            { split; [exact Hd'|]. split; [exact Ht'|]. exists MRun. rewrite Est, Htask. cbn [pmode]. auto. }
+            pose proof (jp_keep _ _ _ _ (j_p _ _ _ _ _ _ _ _ HJ3)) as (_ & Hc0 & _).
+            assert (pw_clock x3 <? 0 = false) as -> by lia.
+            change (pw_clock x3) with (pw_clock (k_push 0 x3 w)).
+            eapply IH; [|exact Hq3 | apply G_push, HG3 | exact Hts3 | exact HS3 | exact HK3 | exact Hsc3 | exact Hlft3].
+            eapply (J_close_push mx kp tnt x3 d1 w _ k' HJ3 Hk' Hl' Hp'). right. left. exists 0, 0. split; [exact Est | lia]. }
+        -- rewrite Est in *. eapply IH; [|exact Hq3 | exact HG3 | exact Hts3 | exact HS3 | exact HK3 | exact Hsc3 | exact Hlft3].
+           eapply (J_close_dead mx kp tnt x3 d1 d1 w _ _ HJ3 Hk' Hl'); reflexivity.
         -- pose proof (placed_parked k' i rest Hd' Ht' Htask Hc) as Hp'.
            destruct Hc as [(ts & Est & Hb)|(y & n & ts & Est & Hb)]; rewrite Est in *.
            ++ destruct (pw_clock x3 <? ts) eqn:Ects.
-              ** eapply IH; [|exact Hq3 | exact HG3 | exact Hts3 | exact HS3 | exact HK3 | exact Hlft3].
-                 eapply (J_close_susp mx tnt x3 d1 w _ k' 0 ts HJ3 Hk' Est Hp').
+              ** eapply IH; [|exact Hq3 | exact HG3 | exact Hts3 | exact HS3 | exact HK3 | exact Hsc3 | exact Hlft3].
+                 eapply (J_close_susp mx kp tnt x3 d1 w _ k' 0 ts HJ3 Hk' Est Hp').
               ** change (pw_clock x3) with (pw_clock (k_push 0 x3 w)).
-                 eapply IH; [|exact Hq3 | apply G_push, HG3 | exact Hts3 | exact HS3 | exact HK3 | exact Hlft3].
-                 eapply (J_close_push mx tnt x3 d1 w _ k' HJ3 Hk' Hl' Hp'). right. left. exists 0, ts. split; [exact Est | lia].
-           ++ eapply IH; [|exact Hq3 | exact HG3 | exact Hts3 | exact HS3 | exact HK3 | exact Hlft3].
-              eapply (J_close_sys mx tnt x3 d1 w _ k' y n ts HJ3 Hk' Est Hp').
+                 eapply IH; [|exact Hq3 | apply G_push, HG3 | exact Hts3 | exact HS3 | exact HK3 | exact Hsc3 | exact Hlft3].
+                 eapply (J_close_push mx kp tnt x3 d1 w _ k' HJ3 Hk' Hl' Hp'). right. left. exists 0, ts. split; [exact Est | lia].
+           ++ eapply IH; [|exact Hq3 | exact HG3 | exact Hts3 | exact HS3 | exact HK3 | exact Hsc3 | exact Hlft3].
+              eapply (J_close_sys mx kp tnt x3 d1 w _ k' y n ts HJ3 Hk' Est Hp').
     + cbn [dsched_okI]. exists []. rewrite app_nil_r. split; [reflexivity|]. split; [constructor|].
       autorewrite with pw. split; [exact Ecl1 | reflexivity].
 Qed.
 
 (** the whole pass, with time left *)
 Lemma ppass_I tnt x t dl :
-  Jop mx tnt x t -> quiet_off t -> TS (po_tasks t) -> TK (po_tasks t) -> 0 < sat_sub dl (pw_clock x) ->
+  Jop mx kp tnt x t -> quiet_off t -> TS (po_tasks t) -> TK (po_tasks t) -> stopc t -> 0 < sat_sub dl (pw_clock x) ->
   let '(x', r, e) := ppass x 0 dl in
   Forall tinert e /\ (r <> PErrStopped -> pw_clock x' = pw_clock x) /\ match r with PLeft l => l = sat_sub dl (pw_clock x) | _ => True end.
 Proof.
-  intros [HJ Hts] Hq HS HK Hlft. rewrite ppass_eq.
+  intros [HJ Hts] Hq HS HK Hsc Hlft. rewrite ppass_eq.
   set (x1 := set_cur (try_grow x 0) 0).
-  pose proof (jp_pools _ _ _ (j_p _ _ _ _ _ _ _ HJ)) as Hpools.
-  destruct (J_try_grow mx tnt x _ None t HJ Hq) as [HJg HGg].
-  assert (J mx tnt x1 (p_sd (get_pool x1 0)) None t) as HJ1.
+  pose proof (jp_pools _ _ _ _ (j_p _ _ _ _ _ _ _ _ HJ)) as Hpools.
+  destruct (J_try_grow mx kp tnt x _ None t HJ Hq) as [HJg HGg].
+  assert (J mx kp tnt x1 (p_sd (get_pool x1 0)) None t) as HJ1.
   { unfold x1. autorewrite with pw. rewrite (p_sd_try_grow x Hpools). apply J_set_cur, HJg. }
   assert (G mx x1 None) as HG1.
   { unfold x1. eapply (G_frame mx (try_grow x 0)); [reflexivity | reflexivity | reflexivity | exact HGg]. }
@@ -157,7 +171,7 @@ Proof.
   { unfold x1. autorewrite with pw. apply (sm_clock _ _ (try_grow_misc x Hpools)). }
   assert (let '(x', r, e) := (let '(x2, d2, r, e) := dsched (pass_fuel_p x1) x1 (p_sd (get_pool x1 0)) dl [] [] in ppass_tail x2 d2 r e) in
           Forall tinert e /\ (r <> PErrStopped -> pw_clock x' = pw_clock x) /\ match r with PLeft l => l = sat_sub dl (pw_clock x) | _ => True end) as Htail.
-  { pose proof (dsched_I (pass_fuel_p x1) tnt x1 _ dl [] [] t HJ1 Hq HG1 Hts1 HS HK ltac:(rewrite Ec1; exact Hlft)) as Hok.
+  { pose proof (dsched_I (pass_fuel_p x1) tnt x1 _ dl [] [] t HJ1 Hq HG1 Hts1 HS HK Hsc ltac:(rewrite Ec1; exact Hlft)) as Hok.
     destruct (dsched (pass_fuel_p x1) x1 (p_sd (get_pool x1 0)) dl [] []) as [[[x2 d2] r] e].
     cbn [dsched_okI] in Hok. destruct Hok as (evs & Ee & Hin & Ec2 & Hl). cbn [app] in Ee. subst e. unfold ppass_tail. cbv zeta.
     destruct (pw_spin _).
@@ -174,49 +188,51 @@ Proof.
   intros Hlft Hpools. rewrite ppass_eq. destruct (p_state (get_pool x 0)) eqn:Est; [| |auto].
   all: cbv zeta; set (x1 := set_cur (try_grow x 0) 0).
   all: assert (pw_clock x1 = pw_clock x) as Ec1 by (unfold x1; autorewrite with pw; apply (sm_clock _ _ (try_grow_misc x Hpools))).
-  all: assert (exists n, pass_fuel_p x1 = S n) as [n ->] by (unfold pass_fuel_p; eexists; cbn [Nat.mul Nat.add]; reflexivity).
+  all: assert (pass_fuel_p x1 <> 0%nat) as Hf0 by (unfold pass_fuel_p; destruct (keep_rounds x1); nia).
+  all: destruct (pass_fuel_p x1) as [|n] eqn:Ef; [contradiction|].
   all: rewrite dsched_S; cbv zeta; rewrite Ec1, Hlft; cbn [Z.eqb]; unfold ppass_tail; cbv zeta.
   all: destruct (pw_spin _); split; try reflexivity; autorewrite with pw; exact Ec1.
 Qed.
 
 (** * the stop loop *)
 Lemma stop_loop_I : forall f tnt x t dl acc,
-  Jop mx tnt x t -> quiet_off t -> p_state (get_pool x 0) = PStopping -> dl <= U64MAX -> TS (po_tasks t) -> TK (po_tasks t) ->
+  Jop mx kp tnt x t -> quiet_off t -> p_state (get_pool x 0) = PStopping -> dl <= U64MAX -> TS (po_tasks t) -> TK (po_tasks t) -> stopc t ->
   (0 < sat_sub dl (pw_clock x) \/ 0 < count_true (parked (po_clock t)) (po_workers t)) ->
   let '(x', r, acc') := stop_loop f x 0 dl acc in
   r = StopTimeout ->
   exists evs, acc' = acc ++ evs /\ 0 < count_true (parked (po_clock (fold_left pev evs t))) (po_workers (fold_left pev evs t)).
 Proof.
-  induction f as [|f IH]; intros tnt x t dl acc HJop Hq Hst Hdl HS HK Hdisj.
+  induction f as [|f IH]; intros tnt x t dl acc HJop Hq Hst Hdl HS HK Hsc Hdisj.
   - cbn [stop_loop]. discriminate.
-  - rewrite stop_loop_S. pose proof (ppass_J mx tnt x t dl HJop Hq) as Hok.
+  - rewrite stop_loop_S. pose proof (ppass_J mx kp tnt x t dl HJop Hq) as Hok.
     pose proof (PoolMono.ppass_same_states x 0 dl 0%nat) as Hss. rewrite Hst in Hss.
     destruct (Z_lt_le_dec 0 (sat_sub dl (pw_clock x))) as [Hlft|Hlft].
     + (* a full pass *)
-      pose proof (ppass_I tnt x t dl HJop Hq HS HK Hlft) as HokI.
+      pose proof (ppass_I tnt x t dl HJop Hq HS HK Hsc Hlft) as HokI.
       destruct (ppass x 0 dl) as [[x1 r] e]. cbn [fst snd ppass_ok] in *.
       destruct HokI as (Hine & Ec1 & Hl).
       destruct r as [l| | | |]; try contradiction.
       2:{ destruct Hok as (_ & _ & Hs). congruence. }
+      2: discriminate.
       destruct Hok as (HJ1 & HG1 & Hl0 & Hqs & Hc1). subst l. specialize (Ec1 ltac:(discriminate)).
-      pose proof (quiet_counts mx tnt x1 _ _ (proj1 HJ1) (Hqs Hlft) HG1) as [Ecount _].
+      pose proof (quiet_counts mx kp tnt x1 _ _ (proj1 HJ1) (Hqs Hlft) HG1) as [Ecount _].
       destruct ((p_running (get_pool x1 0) =? 0) || (sat_sub dl (pw_clock x1) =? 0)) eqn:Eend.
       * destruct (0 <? p_running (get_pool x1 0)) eqn:Erun; [|discriminate].
         intros _. exists e. split; [reflexivity|]. rewrite Ecount. lia.
       * apply orb_false_iff in Eend as [E1 E2].
-        assert (Jop mx tnt (set_clockp x1 (sat_add64 (pw_clock x1) 1000000)) (fold_left pev e t)) as HJ2.
-        { destruct HJ1 as [HJ1 Hts1]. pose proof (jp_clock _ _ _ (j_p _ _ _ _ _ _ _ HJ1)) as Hc.
+        assert (Jop mx kp tnt (set_clockp x1 (sat_add64 (pw_clock x1) 1000000)) (fold_left pev e t)) as HJ2.
+        { destruct HJ1 as [HJ1 Hts1]. pose proof (jp_clock _ _ _ _ (j_p _ _ _ _ _ _ _ _ HJ1)) as Hc.
           destruct (sat_add64_mono (pw_clock x1) 1000000 Hc ltac:(lia)) as [M1 M2].
           split; [|autorewrite with pw; exact Hts1]. autorewrite with pw. apply J_nap; assumption. }
         pose proof (IH tnt _ (fold_left pev e t) dl (acc ++ e) HJ2 (quiet_off_fold _ _ Hq) ltac:(autorewrite with pw; exact Hss) Hdl
-                      (TS_fold _ _ Hine HS) (TK_fold _ _ Hine HK)) as IH1.
+                      (TS_fold _ _ Hine HS) (TK_fold _ _ Hine HK) (stopc_fold _ _ Hsc)) as IH1.
         destruct (stop_loop f _ 0 dl (acc ++ e)) as [[x' r'] acc'].
         intro Hr. destruct (IH1 ltac:(right; pose proof (count_true_nonneg (parked (po_clock (fold_left pev e t))) (po_workers (fold_left pev e t))); lia) Hr) as (evs & -> & Hc).
         exists (e ++ evs). rewrite app_assoc, fold_pev_app. auto.
     + (* no time left: the pass is cut at once *)
       destruct Hdisj as [H|Hcount]; [exfalso; lia|].
       assert (sat_sub dl (pw_clock x) = 0) as Hl0 by (unfold sat_sub in *; lia).
-      pose proof (ppass_cut x dl Hl0 (jp_pools _ _ _ (j_p _ _ _ _ _ _ _ (proj1 HJop)))) as Hcut.
+      pose proof (ppass_cut x dl Hl0 (jp_pools _ _ _ _ (j_p _ _ _ _ _ _ _ _ (proj1 HJop)))) as Hcut.
       destruct (ppass x 0 dl) as [[x1 r] e]. cbn [fst snd ppass_ok] in *. destruct Hcut as [-> Ec1].
       destruct r as [l| | | |]; try contradiction; try discriminate.
       rewrite Ec1, Hl0. cbn [Z.eqb]. rewrite orb_true_r.
